@@ -19,7 +19,21 @@ A *model* is a plain JSON-able dict (lists, strings, ints only), so that it can 
       ['pad', k]                                    filler of 1, 1, 2, 3 or 5 code units (k = 0..4), k = 5 move-result
       ['br']                                        if-eqz v0 to the next instruction (2 units)
       ['fill']                                      fill-array-data v0 with its payload after the return
+      ['mid', v]                                    a payload in the MIDDLE of the code (legal DEX; smali-style assemblers, packers):
+                                                    v = 0 fill-array-data, 1 packed-switch, 2 sparse-switch; emitted as
+                                                    `op v0, P; goto L; [nop]; P: payload; L:` (switch targets all = L), so
+                                                    whatever follows in the body is located behind a payload
     Every body is terminated by the return matching `ret` (then the payloads).
+
+    optional keys of a model (absent in the plain strategies):
+      'bulk':    {'t': n, 'f': n, 'm': n, 's': n}   filler pool entries written into every DEX file of the model in front of
+                 the model's own items: n types La/T<i>;, n field refs La/F;->x<i>:I, n method refs La/F;->x<i>()V, n strings
+                 !<i>. They are referenced by nothing; they move the indices of the model's items up (>= 0x8000, ...).
+                 index_report(model, dexfiles) gives the pool index every reference instruction ends up with.
+      'renames': [['f', cls, name, type, new], ['m', cls, name, ret, [params], new], ...]
+                 a history, part of the case: renames to perform (EncodedField/EncodedMethod.set_name) after the files were
+                 added to the Analysis and before create_xref(); the new names are fresh (used by nothing else).
+                 vf.checks._xref applies them to the loaded files and to the expectation.
 
 The oracle is `sites(model)`: for every method with code the list of (byte offset, opcode, kind, target) of its
 reference-carrying instructions; offsets come from vf.gen.asm (instruction sizes from vf.gen.dalvik_spec), never from
@@ -37,8 +51,14 @@ Strategies:  models(max_classes=5, max_dex=4, max_sites=10, array_invokes=True, 
     '[Lp/C0;', ...; switched off with array_invokes=False), array / internal / external types for the type users.
     Field opcodes follow the field's kind and type, so the ten field types x static/instance x read/write reach all 28.
     profile ('mixed' | 'invokes' | 'fields' | 'strings') multiplies the weight of one instruction family.
+large_models(profile, array_invokes): a single-DEX model plus a 'bulk' plan that puts a drawn referenced item of each pool on
+    an index boundary (0x7fff / 0x8000 / 0x8001; in half of the cases one pool is filled up to 0xfffe / 0xffff, strings also
+    to 0x10000 with const-string turned into const-string/jumbo where the index no longer fits 16 bits).
+with_renames(models): adds a drawn 'renames' history (1..4 renames of defined fields and non-constructor methods).
 normalize(model): undo the tuple -> list conversion of a JSON round trip.
 """
+import bisect
+
 from hypothesis import strategies as st
 
 from vf.gen import asm
@@ -147,6 +167,18 @@ def _items(method, ix):
             emit(asm.Ins('fill-array-data', AA=0, target=lab), k)
             tail.append(asm.Label(lab))
             tail.append(asm.FillArrayPayload(2, [1, 2, 0x6e, 0x1a22, 0x52]))   # data that looks like opcodes
+        elif kind == 'mid':
+            plab, after = 'M%d' % k, 'A%d' % k
+            emit(asm.Ins(('fill-array-data', 'packed-switch', 'sparse-switch')[site[1]], AA=0, target=plab), k)
+            emit(asm.Goto(after), k)
+            emit(asm.Label(plab), None)
+            if site[1] == 0:
+                emit(asm.FillArrayPayload(2, [0x6e, 0x1a22, 0x52]), k)          # data that looks like opcodes
+            elif site[1] == 1:
+                emit(asm.PackedSwitchPayload(0, [after, after]), k)
+            else:
+                emit(asm.SparseSwitchPayload([-1, 0x7122], [after, after]), k)
+            emit(asm.Label(after), None)
         else:
             raise ValueError(site)
     r = method['ret']
@@ -247,17 +279,94 @@ def _gclass(c):
     return G.Class(c['name'], acc, c['super'], interfaces=c['interfaces'], sfields=sf, ifields=inf, dmethods=dm, vmethods=vm)
 
 
-def build(model, single=False):
+BULK_CLASS = 'La/F;'
+
+
+def bulk_refs(bulk):
+    """extra_refs of the filler pool entries of a 'bulk' plan; every filler sorts in front of the items a model can
+    reference from code (types La/.. < Lext/ Ljava/ Lp/ Lq/ [..; members of La/F; first; strings '!..' < every model
+    string except '' and '\\0z')."""
+    bulk = bulk or {}
+    refs = [('t', 'La/T%05d;' % i) for i in range(bulk.get('t', 0))]
+    refs += [('f', BULK_CLASS, 'x%05d' % i, 'I') for i in range(bulk.get('f', 0))]
+    refs += [('m', BULK_CLASS, 'x%05d' % i, 'V', ()) for i in range(bulk.get('m', 0))]
+    refs += [('s', '!%05d' % i) for i in range(bulk.get('s', 0))]
+    return refs
+
+
+def build(model, single=False, bulk=True):
     """-> [(dex bytes, DexFile)] one per part (part d holds the classes with c['dex'] == d); single=True puts
-    every class in one file."""
+    every class in one file. bulk=False leaves the model's filler pool entries out (index planning)."""
     parts = {}
     for c in model['classes']:
         parts.setdefault(0 if single else c['dex'], []).append(c)
+    extra = bulk_refs(model.get('bulk')) if bulk else []
     out = []
     for d in sorted(parts):
-        df = G.DexFile([_gclass(c) for c in parts[d]])
+        df = G.DexFile([_gclass(c) for c in parts[d]], extra_refs=extra)
         out.append((df.build(), df))
     return out
+
+
+def _site_index(ix, site):
+    k = site[0]
+    if k == 'inv':
+        return 'm', ix.m(site[2], site[3], site[4], tuple(site[5]))
+    if k == 'fld':
+        return 'f', ix.f(site[2], site[3], site[4])
+    if k == 'str':
+        return 's', ix.s(site[2])
+    if k in ('new', 'cls', 'cast', 'iof', 'narr'):
+        return 't', ix.t(site[1])
+    if k == 'farr':
+        return 't', ix.t(site[2])
+    return None
+
+
+def index_class(i):
+    return ('<0x7fff' if i < 0x7fff else '0x7fff' if i == 0x7fff else '0x8000' if i == 0x8000 else
+            '0x8001..0xfffe' if i < 0xffff else '0xffff' if i == 0xffff else '>=0x10000')
+
+
+def index_report(model, dexfiles):
+    """[(site kind, opcode format, pool, index)] of every reference instruction, with the index the writer gave it
+    (dexfiles = the DexFile objects returned by build(model), in part order)."""
+    parts = sorted({c['dex'] for c in model['classes']})
+    out = []
+    for c in model['classes']:
+        ix = dexfiles[parts.index(c['dex']) if len(dexfiles) > 1 else 0].ix
+        for m in c['methods']:
+            if not m['code']:
+                continue
+            for site in m['body']:
+                r = _site_index(ix, site)
+                if r is not None:
+                    op = site[1] if site[0] in ('inv', 'fld', 'str', 'farr') else \
+                        {'new': 0x22, 'cls': 0x1c, 'cast': 0x1f, 'iof': 0x20, 'narr': 0x23}[site[0]]
+                    out.append((site[0], ds.OPCODES[op].fmt, r[0], r[1]))
+    return out
+
+
+def index_labels(model, dexfiles):
+    """labels 'idx:<kind>:<fmt>:<index class>' for a bulk model (what the large-pool generator really produced)."""
+    return sorted({'idx:%s:%s:%s' % (k, fmt, index_class(i)) for (k, fmt, _, i) in index_report(model, dexfiles)})
+
+
+def payload_labels(model, kinds=('inv', 'fld', 'str', 'new', 'cls')):
+    """labels for payloads that are not last in the code: 'payload-mid', 'payload-mid:<fill|packed|sparse>' and
+    'payload-mid:then-<kind>' when an instruction of that kind is located behind such a payload in the same method."""
+    labels = set()
+    for c in model['classes']:
+        for m in c['methods']:
+            seen = False
+            for site in m['body'] if m['code'] else ():
+                if site[0] == 'mid':
+                    seen = True
+                    labels.add('payload-mid')
+                    labels.add('payload-mid:' + ('fill', 'packed', 'sparse')[site[1]])
+                elif seen and site[0] in kinds:
+                    labels.add('payload-mid:then-' + site[0])
+    return labels
 
 
 # ------------------------------------------------------------------------------------------ expectations
@@ -458,6 +567,7 @@ def _site_strategy(model, owner, pools, array_invokes=True, profile='mixed'):
     parts.append(('pad', 4, st.integers(0, 5).map(lambda k: ['pad', k])))
     parts.append(('pad', 1, st.just(['br'])))
     parts.append(('pad', 1, st.just(['fill'])))
+    parts.append(('pad', 3, st.integers(0, 2).map(lambda v: ['mid', v])))
     # weighted choice of a branch (one_of() drops duplicate branches, so weights go through an index draw)
     mult = PROFILES[profile]
     branches = [strat for (_, _, strat) in parts]
@@ -473,7 +583,7 @@ def _body(draw, site, max_sites):
     # repeats: the same reference again at later offsets
     nrep = draw(st.integers(0, 3))
     for _ in range(nrep):
-        refs = [s for s in body if s[0] not in ('pad', 'br', 'fill')]
+        refs = [s for s in body if s[0] not in ('pad', 'br', 'fill', 'mid')]
         if not refs:
             break
         s = draw(st.sampled_from(refs))
@@ -494,9 +604,124 @@ def models(draw, max_classes=5, max_dex=4, max_sites=10, array_invokes=True, pro
     return model
 
 
+# ------------------------------------------------------------------------------------------ rename histories
+def renamable(model):
+    """(field renames, method renames) that a history may contain: every defined field; every defined method except
+    constructors / class initialisers."""
+    fl = [['f', c['name'], f[0], f[1]] for c in model['classes'] for f in c['fields']]
+    ml = [['m', c['name'], m['name'], m['ret'], list(m['params'])] for c in model['classes'] for m in c['methods']
+          if not m['name'].startswith('<')]
+    return fl, ml
+
+
+@st.composite
+def with_renames(draw, model_strategy, methods=True):
+    """model + 'renames': 1..4 distinct items, fields twice as likely as methods, new names r0, r1, .. (fresh)."""
+    model = draw(model_strategy)
+    fl, ml = renamable(model)
+    pool = fl + fl + (ml if methods else [])
+    if not pool:
+        return model
+    picks = draw(st.lists(st.sampled_from(pool), min_size=1, max_size=4, unique_by=repr))
+    model['renames'] = [list(p) + ['r%d' % i] for i, p in enumerate(picks)]
+    return model
+
+
+# ------------------------------------------------------------------------------------------ large pools
+def _filler_strings(bulk):
+    out = ['La/T%05d;' % i for i in range(bulk.get('t', 0))]
+    out += ['x%05d' % i for i in range(max(bulk.get('f', 0), bulk.get('m', 0)))]
+    out += ['!%05d' % i for i in range(bulk.get('s', 0))]
+    return out
+
+
+def plan_bulk(model, wants):
+    """Turn `wants` = {'t'|'f'|'m'|'s': (pick, B)} into filler counts (model['bulk']) such that, in the single DEX file
+    of the model, the pick-th (mod n) item of that pool that the code references gets index B (its pool neighbours B-1,
+    B+1, ..); pick = -1: the LAST item of the whole pool gets index B (so B = 0xffff fills the 16-bit index space exactly).
+    Returns the model (changed in place): const-string sites whose string index no longer fits 16 bits become
+    const-string/jumbo. Every pool gets at least one filler (the auxiliary items La/F;, I, V are then always present);
+    a target that cannot be met (B below the index the item has anyway) is ignored."""
+    assert model['ndex'] == 1
+    probe = {'t': 1, 'f': 1, 'm': 1, 's': 1}
+    model['bulk'] = probe
+    df = build(model)[0][1]
+    ix = df.ix
+    used = {'t': set(), 'f': set(), 'm': set(), 's': set()}
+    for c in model['classes']:
+        for m in c['methods']:
+            for site in m['body'] if m['code'] else ():
+                r = _site_index(ix, site)
+                if r is not None:
+                    used[r[0]].add(r[1])
+    size = {'t': len(df.types), 'f': len(df.fields), 'm': len(df.methods)}
+    counts = dict(probe)
+    for pool in ('t', 'f', 'm'):
+        if pool in wants:
+            pick, B = wants[pool]
+            cand = sorted(used[pool])
+            if pick < 0 or not cand:
+                at = size[pool] - 1
+            else:
+                at = cand[pick % len(cand)]
+            counts[pool] = max(1, 1 + B - at)
+    value_at = {i: v for v, i in ix.sidx.items()}
+    probe_units = [G.units(f) for f in _filler_strings(probe)]
+
+    def plain_index(v):                         # index among the non-filler strings
+        return ix.s(v) - sum(1 for f in probe_units if f < G.units(v))
+    if 's' in wants:
+        pick, B = wants['s']
+        cand = sorted(i for i in used['s'] if G.units(value_at[i]) > G.units('!99999'))
+        if cand:
+            value = value_at[cand[-1] if pick < 0 else cand[pick % len(cand)]]
+            others = dict(counts, s=0)
+            before = sum(1 for f in _filler_strings(others) if G.units(f) < G.units(value))
+            counts['s'] = max(1, B - plain_index(value) - before)
+    model['bulk'] = counts
+    # const-string needs a 16-bit index
+    fu = sorted(G.units(f) for f in _filler_strings(counts))
+    final = {}
+    for c in model['classes']:
+        for m in c['methods']:
+            for site in m['body'] if m['code'] else ():
+                if site[0] == 'str' and site[1] == 0x1a:
+                    v = site[2]
+                    if v not in final:
+                        final[v] = plain_index(v) + bisect.bisect_left(fu, G.units(v))
+                    if final[v] > 0xffff:
+                        site[1] = 0x1b
+    return model
+
+
+NEAR_HALF = [0x7fff, 0x8000, 0x8000, 0x8001]
+
+
+@st.composite
+def large_models(draw, profile='mixed', array_invokes=True, max_sites=10):
+    """single-DEX model + bulk plan: every pool gets 'a drawn referenced item on 0x7fff / 0x8000 / 0x8001'; in half of the
+    cases ONE pool (drawn) is filled up to the end of the 16-bit index space instead: its last item on 0xfffe / 0xffff,
+    for strings a drawn loaded string on 0xfffe / 0xffff / 0x10000 (const-string/jumbo territory)."""
+    model = draw(models(max_classes=4, max_dex=1, max_sites=max_sites, array_invokes=array_invokes, profile=profile))
+    high = draw(st.sampled_from([None, None, None, None, 't', 'f', 'm', 's']))
+    wants = {}
+    for pool in ('t', 'f', 'm', 's'):
+        if pool != high:
+            wants[pool] = (draw(st.integers(0, 7)), draw(st.sampled_from(NEAR_HALF)))
+        elif pool == 's':
+            wants[pool] = (draw(st.integers(0, 7)), draw(st.sampled_from([0xfffe, 0xffff, 0x10000])))
+        else:
+            wants[pool] = (-1, draw(st.sampled_from([0xfffe, 0xffff])))
+    return plan_bulk(model, wants)
+
+
 def normalize(model):
     """Bring a model that went through JSON (tuples -> lists) back into generator form (idempotent)."""
     out = {'ndex': int(model['ndex']), 'classes': []}
+    if model.get('bulk'):
+        out['bulk'] = {k: int(v) for k, v in model['bulk'].items()}
+    if model.get('renames'):
+        out['renames'] = [[list(x) if isinstance(x, (list, tuple)) else x for x in r] for r in model['renames']]
     for c in model['classes']:
         out['classes'].append({
             'name': c['name'], 'dex': int(c['dex']), 'super': c['super'], 'interfaces': list(c['interfaces']),
